@@ -266,7 +266,7 @@ def check_c01(model, rep, tier):
     r_uid_format(model, rep)
     r_paths(model, rep)
     r_io_chain(model, rep)
-    rep.floor("R-SCHEMA", 100)
+    rep.floor("R-SCHEMA", 60)
 
 
 # ---------------------------------------------------------------------------------------------------------
@@ -807,7 +807,7 @@ def check_c04(model, rep, tier):
     r_cks_reader(model, rep, rule_id="R-CKS-FORMAT")
     r_parser_symmetry(model, rep)
     r_discinfo_pos(model, rep)
-    rep.floor("R-SCHEMA", 80)
+    rep.floor("R-SCHEMA", 50)
 
 
 # ---------------------------------------------------------------------------------------------------------
@@ -925,7 +925,9 @@ def check_c05(model, rep, tier):
     r_setcur(model, rep)
     r_legacy_map(model, rep)
     from .sources import r_src_route
+    from .regexes import r_legacy_compose
     r_src_route(model, rep)
+    r_legacy_compose(model, rep)
     rep.extra["exhaustive"] = True
 
 
